@@ -503,14 +503,13 @@ func (w *World) sessData(s *MSess, body []byte, final bool, declared string, o c
 		return r
 	}
 	if s.expect != "" && s.expect != declared {
-		// completion with a digest other than the one announced at creation: 201 or refusal are both legitimate
+		// completion with a digest other than the one announced at creation: 201 or a refusal are both legitimate;
+		// a refusal is a failed verification and ends the session
 		if r.Code == 201 {
 			s.open, s.endedHow = false, "completion"
 			w.storeBlob(mr, declared, full, s.created, now)
 		} else {
-			s.maybeGone = true
-			s.endedHow = "failed completion (announced digest differs)"
-			w.x.extra["expectMismatch"] = true
+			s.open, s.endedHow = false, "failed verification (announced digest differs)"
 		}
 		return r
 	}
